@@ -130,6 +130,38 @@ def resolved_names(m):
     return final[:len(m["params"])]
 
 
+# long parameter names (20-40 bytes): every list-valued accessor of such a method (ArgList, ArgCallList, ...) is
+# wider than any plausible line-width threshold (60/80/100/120 bytes)
+LONGNAMES = ["requestContextWithDeadline", "destinationBucketIdentifier", "optionalTransformations", "sourceObjectVersionMarker",
+             "maximumNumberOfRetryAttempts", "callerSuppliedCorrelationToken", "partialResultAccumulatorBuffer", "serverSideEncryptionSettings",
+             "conditionalRequestPrecondition", "intermediateCertificateChainBundle", "downstreamNotificationRecipients",
+             "fallbackRegionPreferenceOrder", "exponentialBackoffConfiguration", "additionalDiagnosticAttachments",
+             "replicationAcknowledgementQuorumSize", "temporaryCredentialsExpirationTime"]
+LONG_VARIADIC = ["any", "interface{}", "any", "interface{}", "string", "T"]
+
+
+def gen_long_method(rng, name):
+    """3-8 parameters with long names, variadic (...any / ...interface{} / ...string / ...T) or not."""
+    np = rng.randint(3, 8)
+    variadic = rng.random() < 0.65
+    names = rng.sample(LONGNAMES, np)
+    while sum(len(x) + 2 for x in names) < 130:          # wider than a 120-byte threshold as well
+        names.append(rng.choice([x for x in LONGNAMES if x not in names]))
+    np = len(names)
+    params = []
+    for i, nm in enumerate(names):
+        last_var = variadic and i == np - 1
+        t = TYPE[rng.choice(LONG_VARIADIC)] if last_var else rng.choice(TYPES)
+        params.append({"name": nm, "type": t[0], "max": t[2], "variadic": last_var})
+    results = []
+    for i in range(rng.choice([0, 1, 1, 2])):
+        t = rng.choice(TYPES)
+        results.append({"name": None, "type": t[0], "max": t[2]})
+    m = {"name": name, "params": params, "results": results, "variadic": variadic, "long": True}
+    m["resolved"] = resolved_names(m)
+    return m
+
+
 def gen_iface(rng, name, generic):
     nm = rng.randint(1, 5)
     names = rng.sample(MNAMES, nm)
@@ -141,6 +173,8 @@ def gen_iface(rng, name, generic):
         ms += [gen_method(rng, n, generic) for n in names[2:]]
     else:
         ms = [gen_method(rng, n, generic) for n in names]
+    if rng.random() < 0.45:
+        ms.append(gen_long_method(rng, rng.choice(["Transfer", "Dispatch", "Replicate"])))
     return {"name": name, "generic": generic, "methods": ms}
 
 
@@ -736,6 +770,17 @@ def check(ctx, only=None):
                 for h in range(nh if not pkg.get("mocks") else max(2, nh // 2)):
                     cases.append({"pkg": v, "iface": it, "hist": gen_history(ctx.rng, it, hl if h else 2 * hl, malformed=(h == nh - 1))})
     binary, err = build_module(ctx, pkgs)
+    compile_fail = None
+    if binary is None and "do not compile" in err:
+        # some generated files do not compile: keep looking for a failing input with the packages that do
+        broken = set(re.findall(r"\b(p\d+)/mocks_gen\.go", err))
+        if broken and len(broken) < len(pkgs):
+            compile_fail = {"packages": sorted(broken), "errors": err[-2500:],
+                            "sources": [render_pkg(p) for p in pkgs if p["name"] in broken][:3]}
+            keep = [i for i, c in enumerate(cases) if c["pkg"]["name"] not in broken]
+            cases = [cases[i] for i in keep]
+            pkgs = [p for p in pkgs if p["name"] not in broken]
+            binary, err = build_module(ctx, pkgs)
     if binary is None:
         rp = ctx.write_replay("generate", {"what": err, "obligation": "correspondence for C04: the generated matryer mocks of the generator's "
                                            "interface class (kept inside the class that compiles) no longer generate/compile",
@@ -755,6 +800,11 @@ def check(ctx, only=None):
                                                  "case": {"pkg": small["pkg"], "iface": small["iface"], "hist": small["hist"]},
                                                  "readable": describe(small, so)})
         ctx.violation(rp)
+    if compile_fail and not oracle_fail:
+        rp = ctx.write_replay("generate", {"what": "generated matryer mocks of %d package(s) of the generator's interface class (kept inside the class that "
+                                                   "compiles) no longer compile; the remaining packages showed no failing history" % len(compile_fail["packages"]),
+                                           "obligation": "correspondence for C04 (no implementation to run for these interfaces)", "compile": compile_fail})
+        ctx.violation(rp, nofail=True)
     if not gate["ok"] and not oracle_fail:
         ctx.violation(gate["replay"], nofail=True)
     if (bad or errs) and not oracle_fail:
@@ -781,7 +831,7 @@ def check(ctx, only=None):
         return any(x["k"] == "records" and len(x["l"]) >= 2 for x in o)
     distinct = len({json.dumps([mock_term(c["pkg"], c["iface"]), c["hist"]], sort_keys=True) for c, o in zip(cases, outs) if nontrivial(o)})
     hist = {"ops": {}, "outcomes": {}, "params_per_method": {}, "results_per_method": {}, "param_style": {}, "options": {},
-            "types": {}, "option_level": {}, "nested_ops_in_installed_funcs": {}, "nested_outcomes": {}, "variadic_methods": 0, "generic_interfaces": 0, "methods": 0, "interfaces": 0}
+            "types": {}, "long_name_methods": {}, "long_name_call_list_bytes": {}, "option_level": {}, "nested_ops_in_installed_funcs": {}, "nested_outcomes": {}, "variadic_methods": 0, "generic_interfaces": 0, "methods": 0, "interfaces": 0}
     hist["mocks_per_mixed_file"], hist["mixed_via"], hist["mixed_option_values"] = {}, {}, {}
     for pkg in pkgs:
         for v, _ in views(pkg):
@@ -805,6 +855,12 @@ def check(ctx, only=None):
             for m in it["methods"]:
                 hist["methods"] += 1
                 hist["variadic_methods"] += m["variadic"]
+                if m.get("long"):
+                    w = sum(len(x) + 2 for x in m["resolved"]) + (3 if m["variadic"] else 0)
+                    key = ("variadic ..." + m["params"][-1]["type"]) if m["variadic"] else "non-variadic"
+                    hist["long_name_methods"][key] = hist["long_name_methods"].get(key, 0) + 1
+                    hist["long_name_call_list_bytes"]["min"] = min(w, hist["long_name_call_list_bytes"].get("min", w))
+                    hist["long_name_call_list_bytes"]["max"] = max(w, hist["long_name_call_list_bytes"].get("max", w))
                 for k, v in (("params_per_method", len(m["params"])), ("results_per_method", len(m["results"]))):
                     hist[k][str(v)] = hist[k].get(str(v), 0) + 1
                 for p in m["params"]:
